@@ -104,9 +104,11 @@ def spell(ev, seq):
     prev = None
     for k, (kind, f) in enumerate(seq):
         if kind == 'Num':
+            nxt = seq[k + 1][0] if k + 1 < len(seq) else None
             if prev == 'Num':
                 if ev == 'i64': return None
                 out.append('.5')
+            elif nxt == 'Num' and ev != 'i64': out.append(str(k + 2) + '.5')      # `2.5.5`: the only way two literals can be adjacent
             else: out.append(str(k + 2))
         elif kind == 'Superscript':
             if prev == 'Superscript': return None
@@ -341,3 +343,22 @@ class ParserOb(Obligation):
         res['queries'] = dict(e.stats.queries); res['solver_s'] = round(e.stats.solver_s, 3); res['transitions'] = e.stats.transitions
         res['fns'] = sorted(e.stats.fns); res['summaries'] = sorted(e.stats.summaries)
         return res
+
+
+def call_templates(prop, ev, oc, tag, max_args=3, fns=None):
+    """f ( a1 , ... , an ) for every function token of the evaluator and n = 0..max_args: arity, argument order and the node built"""
+    obs = []
+    F = ['ExplicitFunction'] if fns is None else ['ExplicitFunction:' + f for f in fns]
+    for n in range(0, max_args + 1):
+        pos = [F, ['LeftParen']]
+        for i in range(n):
+            pos.append(['Num'])
+            if i < n - 1: pos.append(['Comma'])
+        pos.append(['RightParen'])
+        obs.append(ParserOb(prop, ev, None, oc=oc, positions=pos, label='%s/call/%d-args/%s' % (ev, n, tag)))
+    # malformed calls: missing / doubled commas, missing closing bracket, a second call as argument
+    obs.append(ParserOb(prop, ev, None, oc=oc, positions=[F, ['LeftParen'], ['Num', 'Comma', 'RightParen'], ['Num', 'Comma', 'RightParen'], ['Num', 'Comma', 'RightParen'], ['Num', 'Comma', 'RightParen']],
+                        label='%s/call/malformed/%s' % (ev, tag)))
+    obs.append(ParserOb(prop, ev, None, oc=oc, positions=[F, ['LeftParen'], F, ['LeftParen'], ['Num'], ['RightParen'], ['RightParen', 'Comma'], ['Num', 'RightParen'], ['RightParen']],
+                        label='%s/call/nested/%s' % (ev, tag)))
+    return obs
